@@ -227,4 +227,196 @@ def assembleM (k : MConsts α) (c001 c0001 : α) (P : MProblem α) : LinProb α 
     if t == 1 then L := antiPeriodicity L a b
   return L
 
+
+/-! ### axisymmetric magnetostatics: first pass of `FSolver::StaticAxisymmetric` (cfemm/fsolver/staticaxi.cpp) -/
+
+structure AxiExtra (α : Type) where
+  log : α → α
+  abs : α → α
+  /-- the ABSOLUTE threshold `1.e-06` (centimetres) of the on-axis and degenerate-shape tests -/
+  tiny : α
+  extRo : α
+  extRi : α
+  extZo : α
+  /-- `IsExternal` per block label -/
+  external : Array Bool
+
+section Axi
+variable [LT α] [DecidableLT α]
+
+/-- the radius `R_hat` of the `Mz` term: the closed forms of `∫ dA / r` over the element, with their special cases for nodes
+    on the axis and for element sides parallel to the axis — selected by ABSOLUTE thresholds -/
+def rHat (x : AxiExtra α) (rn q : V3 α) (R : α) : α :=
+  let onAxis (j : Fin 3) : Bool := decide (rn j < x.tiny)
+  let flag := (if onAxis 0 then 1 else 0) + (if onAxis 1 then 1 else 0) + (if onAxis 2 then 1 else 0)
+  if flag == 2 then R
+  else if flag == 1 then
+    let pick (a b : Fin 3) : α :=
+      if x.abs (rn a - rn b) < x.tiny then rn b / 2 else (rn a - rn b) / (2 * x.log (rn a) - 2 * x.log (rn b))
+    if onAxis 2 then pick 0 1 else if onAxis 1 then pick 2 0 else pick 1 2
+  else
+    if x.abs (q 0) < x.tiny then (q 1 * q 1) / (2 * (-q 1 + rn 0 * x.log (rn 0 / rn 2)))
+    else if x.abs (q 1) < x.tiny then (q 2 * q 2) / (2 * (-q 2 + rn 1 * x.log (rn 1 / rn 0)))
+    else if x.abs (q 2) < x.tiny then (q 0 * q 0) / (2 * (-q 0 + rn 2 * x.log (rn 2 / rn 1)))
+    else -(q 0 * q 1 * q 2) / (2 * (q 0 * rn 0 * x.log (rn 0) + q 1 * rn 1 * x.log (rn 1) + q 2 * rn 2 * x.log (rn 2)))
+
+/-- permeabilities of the first pass in the axisymmetric solver -/
+def firstPassMuAxi (bp : MBlockProp α) : α × α :=
+  let t := bp.lamFill
+  if bp.lamType == 0 then (bp.mux * t, bp.muy * t)
+  else if bp.lamType == 1 then (bp.mux * t + (1 - t), bp.mux / (t + bp.mux * (1 - t)))
+  else if bp.lamType == 2 then (bp.muy * t + (1 - t), bp.muy / (t + bp.muy * (1 - t)))
+  else (1, 1)
+
+def assembleMAxi (k : MConsts α) (x : AxiExtra α) (c001 c0001 : α) (P : MProblem α) : LinProb α := Id.run do
+  let nn := P.nodes.size
+  let zero : α := 0
+  let node (i : Nat) : Node α := P.nodes.getD i { x := zero, y := zero, bm := -1, cond := -1 }
+  let lineProp (i : Int) : MBdryProp α := P.lineProps.getD i.toNat { fmt := 99, A0 := zero, A1 := zero, A2 := zero, phi := zero, c0 := zero, c1 := zero }
+  let blk (i : Nat) : MBlockProp α := P.blockProps.getD i { mux := 1, muy := 1, lamType := 0, lamFill := 1, Jre := zero, cduct := zero, Hc := zero }
+  let lab (i : Nat) : MLabel α := P.labels.getD i { inCircuit := -1, wound := false, magDir := zero }
+  let nc := P.circProps.size
+  let mut int1 : Array α := Array.replicate nc zero
+  let mut int2 : Array α := Array.replicate nc zero
+  let mut int3 : Array α := Array.replicate nc zero
+  for el in P.els do
+    let lb := lab el.lbl
+    if lb.inCircuit != -1 then
+      let n : Fin 3 → Nat := getn el.p
+      let xs : V3 α := fun j => (node (n j)).x
+      let ys : V3 α := fun j => (node (n j)).y
+      let p := shapeP ys
+      let q := shapeQ xs
+      let a := area p q
+      let r := (xs 0 + xs 1 + xs 2) / 3
+      let bp := blk el.blk
+      let cduct := if lb.wound then zero else bp.cduct
+      let ci := lb.inCircuit.toNat
+      int1 := int1.setIfInBounds ci (int1.getD ci zero + a)
+      int2 := int2.setIfInBounds ci (int2.getD ci zero + 100 * a * cduct / r)
+      int3 := int3.setIfInBounds ci (int3.getD ci zero + bp.Jre * a * 100)
+  let cases : Array (Nat × α × α) := Array.ofFn (n := nc) (fun i =>
+    circuitCase c001 (P.circProps.getD i.val { typ := 1, amps := zero, dvolts := zero }) (int1.getD i.val zero) (int2.getD i.val zero) (int3.getD i.val zero))
+  let mut L : LinProb α := create nn P.bandwidth
+  for el in P.els do
+    let n : Fin 3 → Nat := getn el.p
+    let xs : V3 α := fun j => (node (n j)).x
+    let ys : V3 α := fun j => (node (n j)).y
+    let rn := xs
+    let p := shapeP ys
+    let q := shapeQ xs
+    let g : V3 α := fun j => match j with
+      | 0 => (xs 2 + xs 1) / 2 | 1 => (xs 0 + xs 2) / 2 | 2 => (xs 1 + xs 0) / 2
+    let l : V3 α := fun j =>
+      let kk := nxt j
+      k.sqrt (k.sq (xs kk - xs j) + k.sq (ys kk - ys j))
+    let a := area p q
+    let R := (xs 0 + xs 1 + xs 2) / 3
+    let aHat := ((0 + rn 0 * rn 0 * p 0 / (4 * R)) + rn 1 * rn 1 * p 1 / (4 * R)) + rn 2 * rn 2 * p 2 / (4 * R)
+    let Rh := rHat x rn q R
+    -- upper triangles
+    let Kx : α := -1 / (2 * aHat * R)
+    let mut mx : Array α := Array.replicate 9 zero
+    for j in [(0 : Fin 3), 1, 2] do
+      for kk in [(0 : Fin 3), 1, 2] do
+        if j.val ≤ kk.val then
+          mx := mx.setIfInBounds (j.val * 3 + kk.val) (0 + Kx * p j * rn j * p kk * rn kk)
+    let mg (m : Array α) (a b : Nat) : α := m.getD (a * 3 + b) zero
+    for j in [(0 : Fin 3), 1, 2] do
+      if rn j < x.tiny then
+        mx := mx.setIfInBounds (j.val * 3 + j.val) (mg mx j.val j.val + (mg mx 0 0 + mg mx 1 1 + mg mx 2 2))
+    let Ky : α := -1 / (2 * aHat * Rh)
+    let mut my : Array α := Array.replicate 9 zero
+    let mut mxy : Array α := Array.replicate 9 zero
+    for j in [(0 : Fin 3), 1, 2] do
+      for kk in [(0 : Fin 3), 1, 2] do
+        if j.val ≤ kk.val then
+          my := my.setIfInBounds (j.val * 3 + kk.val) (0 + Ky * (q j * rn j) * (q kk * rn kk) * (g j / R) * (g kk / R))
+          mxy := mxy.setIfInBounds (j.val * 3 + kk.val)
+            (0 + (Ky * ((q j * rn j) * (g j / R)) * (p kk * rn kk) + Ky * ((q kk * rn kk) * (g kk / R)) * (p j * rn j)))
+    for (a, b) in [(1, 0), (2, 0), (2, 1)] do
+      mx := mx.setIfInBounds (a * 3 + b) (mg mx b a)
+      my := my.setIfInBounds (a * 3 + b) (mg my b a)
+      mxy := mxy.setIfInBounds (a * 3 + b) (mg mxy b a)
+    let mut me : Array α := Array.replicate 9 zero
+    let mut be : Array α := Array.replicate 3 zero
+    for j in [(0 : Fin 3), 1, 2] do
+      let e := geti el.e j
+      if e ≥ 0 then
+        let lp := lineProp e
+        if lp.fmt == 2 then
+          let kk := nxt j
+          let r := (xs j + xs kk) / 2
+          let Kb := -c0001 * k.c * 2 * r * lp.c0 * l j / 6
+          me := me.setIfInBounds (j.val * 3 + j.val) (mg me j.val j.val + Kb * 2)
+          me := me.setIfInBounds (kk.val * 3 + kk.val) (mg me kk.val kk.val + Kb * 2)
+          me := me.setIfInBounds (j.val * 3 + kk.val) (mg me j.val kk.val + Kb)
+          me := me.setIfInBounds (kk.val * 3 + j.val) (mg me kk.val j.val + Kb)
+          let K2 := (lp.c1 * l j / 2) * c0001 * 2 * r
+          be := be.setIfInBounds j.val (be.getD j.val zero + K2)
+          be := be.setIfInBounds kk.val (be.getD kk.val zero + K2)
+    let lb := lab el.lbl
+    let bp := blk el.blk
+    let mut t : α := 0
+    if lb.inCircuit ≥ 0 then
+      let (cs, cj, cdv) := cases.getD lb.inCircuit.toNat (0, zero, zero)
+      if cs == 1 then t := cj
+      if cs == 0 then t := -100 * cdv * bp.cduct / R
+    for j in [0, 1, 2] do
+      let Kj := -2 * R * (bp.Jre + t) * a / 3
+      be := be.setIfInBounds j (be.getD j zero + Kj)
+    let md := lb.magDir
+    for j in [(0 : Fin 3), 1, 2] do
+      let kk := nxt j
+      let r := (xs j + xs kk) / 2
+      let Km := -c0001 * r * bp.Hc * (k.cos (md * k.pi / 180) * (xs kk - xs j) + k.sin (md * k.pi / 180) * (ys kk - ys j))
+      be := be.setIfInBounds j.val (be.getD j.val zero + Km)
+      be := be.setIfInBounds kk.val (be.getD kk.val zero + Km)
+    let (m1, m2) := firstPassMuAxi bp
+    let (mu1, mu2) : α × α :=
+      if x.external.getD el.lbl false then
+        let Z := (ys 0 + ys 1 + ys 2) / 3 - x.extZo
+        let kl := (R * R + Z * Z) * x.extRi / (x.extRo * x.extRo * x.extRo)
+        (m1 / kl, m2 / kl)
+      else (m1, m2)
+    for j in [(0 : Fin 3), 1, 2] do
+      for kk in [(0 : Fin 3), 1, 2] do
+        me := me.setIfInBounds (j.val * 3 + kk.val)
+          (mg me j.val kk.val + (mg mx j.val kk.val / mu2 + mg my j.val kk.val / mu1 + mg mxy j.val kk.val * 0 + 0))
+        be := be.setIfInBounds j.val (be.getD j.val zero + 0 * 0)
+    for j in [(0 : Fin 3), 1, 2] do
+      for kk in [(0 : Fin 3), 1, 2] do
+        if j.val ≤ kk.val then
+          L := put L (get L (n j) (n kk) - mg me j.val kk.val) (n j) (n kk)
+      L := setB L (n j) (getB L (n j) - be.getD j.val zero)
+  for i in [0:nn] do
+    let nd := node i
+    if nd.bm ≥ 0 then
+      let pp := P.nodeProps.getD nd.bm.toNat { Jre := zero, Jim := zero, Are := zero }
+      L := setB L i (getB L i + c001 * pp.Jre * 2 * nd.x)
+  for i in [0:nn] do
+    let nd := node i
+    if x.abs nd.x < k.ucm * x.tiny then L := setValue L i 0
+    else if nd.bm ≥ 0 then
+      let pp := P.nodeProps.getD nd.bm.toNat { Jre := zero, Jim := zero, Are := zero }
+      if pp.Jre == 0 && pp.Jim == 0 then
+        L := setValue L i (pp.Are / k.c)
+  for el in P.els do
+    for j in [(0 : Fin 3), 1, 2] do
+      let kk := nxt j
+      let e := geti el.e j
+      if e ≥ 0 then
+        let lp := lineProp e
+        if lp.fmt == 0 then
+          let n0 := getn el.p j
+          let n1 := getn el.p kk
+          if !((node n0).x == 0) then L := setValue L n0 (prescribedA k P.polar lp (node n0).x (node n0).y)
+          if !((node n1).x == 0) then L := setValue L n1 (prescribedA k P.polar lp (node n1).x (node n1).y)
+  for (a, b, t) in P.pbc do
+    if t == 0 then L := periodicity L a b
+    if t == 1 then L := antiPeriodicity L a b
+  return L
+
+end Axi
+
 end XfemmVerif.MSolver
